@@ -1401,6 +1401,8 @@ int asn1_printable_string_case_ignore_match(const char *a, size_t alen,
 		if (toupper(*a) != toupper(*b)) {
 			return 0;
 		}
+		a++;
+		b++;
 	}
 	return 1;
 }
